@@ -58,6 +58,7 @@ Proof. vm_compute. reflexivity. Qed.
 (* ------------------------------------------------------------------ footnotes *)
 From Coq Require Import Permutation Sorted.
 From V Require Import Model.Footnotes Spec.FootnoteSpec Proofs.FootnoteProofs Proofs.FootnoteOrder.
+From V Require Spec.Valid.
 
 (* sort_perm_indep: the tree returned by process does not depend on the order in which the HashMap's
    into_values() yields its entries (any two orders that are permutations of the entries) *)
@@ -110,6 +111,15 @@ Theorem C15_first_seen_is_1_to_n : forall (fold pres : bytes -> bytes) root,
   first_seen [] (ref_ixs (fst r)) = nseq 1 (N.to_nat (snd (snd r))).
 Proof. exact refs_first_seen. Qed.
 Print Assumptions C15_first_seen_is_1_to_n.
+
+(* the same under C04's own leaf clause (Spec.Valid.leaves_ok: FootnoteReference nodes have no children) *)
+Theorem C15_numbered_in_order_valid_trees : forall (fold pres : bytes -> bytes) root,
+  Spec.Valid.leaves_ok root = true ->
+  let r := refs fold pres root (collect fold pres (top_defs root) 0 [], 0%N) in
+  fs_ok 0 (ref_ixs (fst r)) = Some (snd (snd r)) /\
+  first_seen [] (ref_ixs (fst r)) = nseq 1 (N.to_nat (snd (snd r))).
+Proof. exact refs_first_seen_valid. Qed.
+Print Assumptions C15_numbered_in_order_valid_trees.
 
 (* non-vacuity: references b, a, b with both labels defined are numbered 1, 2, 1 and the counter ends at 2 *)
 Example C15_numbered_in_order_example :
